@@ -442,6 +442,8 @@ class SimpleOp(Contract):
         'renameVariable': ('renameVariable', ['v', 'renamed'], {}),
         'renameDimension': ('renameDimension', ['t', 'time'], {}),
         'removeSingleton': ('removeSingleton', [], {}),
+        'insertDimension(z=K)': ('insertDimension', [], {}),
+        'insertDimension(z=K, before=y)': ('insertDimension', [], dict(before='y')),
     }
 
     def __init__(self, op):
@@ -467,13 +469,17 @@ class SimpleOp(Contract):
         f = pnc_file(I, dimensions={'t': dim_obj(I, 't', self.n['t'], unlimited=True), 'y': dim_obj(I, 'y', self.n['y']), 's': dim_obj(I, 's', 1)},
                      variables=dict(self.vars), attrs=dict(title='src'))
         self.f = f
+        self.K = ctx.fresh('K')
         return dict(self=f)
 
     def call_args(self, inp):
-        return [inp['self']] + [list(a) if isinstance(a, list) else a for a in self.args], dict(self.kw)
+        kw = dict(self.kw)
+        if self.meth == 'insertDimension':
+            kw['z'] = self.K
+        return [inp['self']] + [list(a) if isinstance(a, list) else a for a in self.args], kw
 
     def requires(self, inp):
-        return And(ge(self.n['t'], 2), ge(self.n['y'], 2))
+        return And(ge(self.n['t'], 2), ge(self.n['y'], 2), ge(self.K, 1))
 
     def small(self, inp):
         return And(le(self.n['t'], 3), le(self.n['y'], 3))
@@ -496,6 +502,17 @@ class SimpleOp(Contract):
             e = {k: (k, d, ident(d)) for k, d in self.vd.items() if k != 'p'}
             e['p'] = ('p', ('t', 'y'), lambda idx: (idx[0], 0, idx[1]))
             return e, dict(t=self.n['t'], y=self.n['y'])
+        if self.op.startswith('insertDimension'):
+            # the new dimension z (length K) goes first, or right before y; the data are repeated along it
+            e = {}
+            for k, d in self.vd.items():
+                if 'before' in self.kw and 'y' not in d:
+                    e[k] = (k, d, ident(d))
+                    continue
+                bi = d.index('y') if 'before' in self.kw else 0
+                nd = d[:bi] + ('z',) + d[bi:]
+                e[k] = (k, nd, (lambda bi: (lambda idx: tuple(idx[:bi]) + tuple(idx[bi + 1:])))(bi))
+            return e, dict(t=self.n['t'], y=self.n['y'], s=1, z=getattr(self, 'K', None))
 
     def ensures(self, inp, res, I):
         from pyvc.nparr import SArr
@@ -509,7 +526,7 @@ class SimpleOp(Contract):
                 ('exactly the expected variables', sorted(vs.keys()) == sorted(exp.keys())),
                 ('exactly the expected dimensions', sorted(dims.keys()) == sorted(dimlens.keys())
                  and And(*[eq(dims[d].attrs['_len'], n) for d, n in dimlens.items() if d in dims]))]
-        q = [z3.Int('q0'), z3.Int('q1'), z3.Int('q2')]
+        q = [z3.Int('q0'), z3.Int('q1'), z3.Int('q2'), z3.Int('q3')]
         for rk, (sk, rdims, srcidx) in exp.items():
             X = vs.get(rk)
             if not isinstance(X, SArr):
@@ -532,10 +549,10 @@ class SimpleOp(Contract):
     # -- replay on the real function -----------------------------------------------------------------------------------
     def concretize(self, model, inp):
         from pyvc.verify import model_value
-        return dict(op=self.op, nt=model_value(model, self.n['t']), ny=model_value(model, self.n['y']))
+        return dict(op=self.op, nt=model_value(model, self.n['t']), ny=model_value(model, self.n['y']), K=model_value(model, self.K))
 
     def concretize_without_model(self, inp):
-        return dict(op=self.op, nt=3, ny=4)
+        return dict(op=self.op, nt=3, ny=4, K=2)
 
     def replay(self, c):
         import numpy as np
@@ -554,8 +571,11 @@ class SimpleOp(Contract):
             data = {k: rng.random(tuple(n[d] for d in dims)) for k, dims in self.vd.items()}
             for k, dims in self.vd.items():
                 f.createVariable(k, 'd', dims, values=data[k].copy(), units='ppb')
+            kw = dict(self.kw)
+            if self.meth == 'insertDimension':
+                self.K = kw['z'] = max(1, min(int(c.get('K') or 2), 5))
             try:
-                g = getattr(f, self.meth)(*[list(a) if isinstance(a, list) else a for a in self.args], **self.kw)
+                g = getattr(f, self.meth)(*[list(a) if isinstance(a, list) else a for a in self.args], **kw)
             except Exception as e:
                 return False, dict(raised=type(e).__name__, message=str(e)[:160], op=self.op, nt=nt, ny=ny)
             exp, dimlens = self.expected()
@@ -568,7 +588,13 @@ class SimpleOp(Contract):
                 if rk not in g.variables:
                     continue
                 gv = g.variables[rk]
-                e = data[sk].reshape(tuple(len(g.dimensions[d]) for d in rdims)) if all(d in g.dimensions for d in rdims) else None
+                if all(d in g.dimensions for d in rdims):
+                    shp = tuple(len(g.dimensions[d]) for d in rdims)
+                    e = np.empty(shp)
+                    for idx in np.ndindex(shp):
+                        e[idx] = data[sk][srcidx(idx)]
+                else:
+                    e = None
                 if tuple(gv.dimensions) != rdims or e is None or gv.shape != e.shape or not np.array_equal(np.asarray(gv[...]), e):
                     bad.append('%s: dimensions %r shape %r' % (rk, tuple(gv.dimensions), gv.shape))
             for k in self.vd:
